@@ -80,7 +80,7 @@ func layouts() [][]int {
 			out = append(out, []int{a, b})
 		}
 	}
-	triPool := []int{shU8, shString, shUnkVar, shUnk3}
+	triPool := []int{shU8, shString, shUnkVar}
 	for _, a := range triPool {
 		for _, b := range triPool {
 			for _, c := range triPool {
@@ -108,9 +108,9 @@ func bodyBound(layout []int) int {
 		return sx.Param("maxBody", 12)
 	}
 	if nvar > 0 {
-		return sx.Param("maxBodyVar", 9)
+		return sx.Param("maxBodyVar", 7)
 	}
-	return sx.Param("maxBody", 24)
+	return sx.Param("maxBody", 16)
 }
 
 const tplID = 300
